@@ -180,33 +180,79 @@ impl Coll for Types {
 
 struct Exports {
     m: Module,
-    f: FunctionId,
+    /// one function per value, so that lookups by exported function find "the first live export of value v"
+    fs: Vec<FunctionId>,
     ids: Vec<ExportId>,
+    vals: Vec<u32>,
+    alive: Vec<bool>,
 }
 impl Coll for Exports {
     fn add(&mut self, v: u32) -> (usize, bool) {
-        issue!(self, self.m.exports.add(&format!("e{}", v), self.f))
+        let r = issue!(self, self.m.exports.add(&format!("e{}", v), self.fs[v as usize % self.fs.len()]));
+        if r.1 {
+            self.vals.push(v);
+            self.alive.push(true);
+        }
+        r
     }
-    fn del(&mut self, k: usize) { self.m.exports.delete(self.ids[k]); }
+    fn del(&mut self, k: usize) {
+        // three public ways to delete an export: by id, as a root, by name (when the name designates this one)
+        let first = (0..self.ids.len()).find(|i| self.alive[*i] && self.vals[*i] == self.vals[k]);
+        match k % 3 {
+            0 => self.m.exports.delete(self.ids[k]),
+            1 => self.m.exports.remove_root(self.ids[k]),
+            _ if first == Some(k) => {
+                let _ = self.m.exports.remove(format!("e{}", self.vals[k]));
+            }
+            _ => self.m.exports.delete(self.ids[k]),
+        }
+        self.alive[k] = false;
+    }
     fn get(&self, k: usize) -> Option<String> {
         let id = self.ids[k];
         guarded(|| self.m.exports.get(id).name[1..].to_string()).ok()
     }
     fn iter(&self) -> Vec<String> { self.m.exports.iter().map(|e| e.name[1..].to_string()).collect() }
     fn iter_mut_vals(&mut self) -> Option<Vec<String>> { Some(self.m.exports.iter_mut().map(|e| e.name[1..].to_string()).collect()) }
+    fn find(&self, v: u32) -> Option<Option<usize>> {
+        let f = self.fs[v as usize % self.fs.len()];
+        let by_func = self.m.exports.get_exported_func(f).map(|e| self.ids.iter().position(|x| *x == e.id()).unwrap_or(usize::MAX));
+        let by_name = self.m.exports.get_func(format!("e{}", v)).ok();
+        // the two lookups must agree on whether such an export exists, and the name must lead to that function
+        match (by_func, by_name) {
+            (Some(k), Some(g)) if g == f => Some(Some(k)),
+            (None, None) => Some(None),
+            _ => Some(Some(usize::MAX - 1)),
+        }
+    }
     fn issued(&self) -> usize { self.ids.len() }
 }
 
 struct Imports {
     m: Module,
     ids: Vec<ImportId>,
+    vals: Vec<u32>,
+    alive: Vec<bool>,
 }
 impl Coll for Imports {
     fn add(&mut self, v: u32) -> (usize, bool) {
         let (_, id) = self.m.add_import_global("m", &format!("v{}", v), ValType::I32, false, false);
-        issue!(self, id)
+        let r = issue!(self, id);
+        if r.1 {
+            self.vals.push(v);
+            self.alive.push(true);
+        }
+        r
     }
-    fn del(&mut self, k: usize) { self.m.imports.delete(self.ids[k]); }
+    fn del(&mut self, k: usize) {
+        let first = (0..self.ids.len()).find(|i| self.alive[*i] && self.vals[*i] == self.vals[k]);
+        if k % 2 == 1 && first == Some(k) {
+            let _ = self.m.imports.remove("m", format!("v{}", self.vals[k]));
+        } else {
+            self.m.imports.delete(self.ids[k]);
+        }
+        self.alive[k] = false;
+    }
     fn get(&self, k: usize) -> Option<String> {
         let id = self.ids[k];
         guarded(|| self.m.imports.get(id).name[1..].to_string()).ok()
@@ -357,16 +403,20 @@ fn make(coll: &str) -> Option<Box<dyn Coll>> {
         "data" => Box::new(Datas { m: Module::default(), ids: vec![] }),
         "elements" => Box::new(Elements { m: Module::default(), ids: vec![] }),
         "types" => Box::new(Types { m: Module::default(), ids: vec![] }),
-        "imports" => Box::new(Imports { m: Module::default(), ids: vec![] }),
+        "imports" => Box::new(Imports { m: Module::default(), ids: vec![], vals: vec![], alive: vec![] }),
         "funcs" => Box::new(Funcs { m: Module::default(), ids: vec![] }),
         "locals" => Box::new(Locals { m: Module::default(), ids: vec![] }),
         "customs" => Box::new(Customs { m: Module::default(), ids: vec![], vals: vec![], alive: vec![] }),
         "exports" => {
             let mut m = Module::default();
-            let mut b = FunctionBuilder::new(&mut m.types, &[], &[]);
-            b.func_body().i32_const(0).drop();
-            let f = b.finish(vec![], &mut m.funcs);
-            Box::new(Exports { m, f, ids: vec![] })
+            let fs: Vec<FunctionId> = (0..8)
+                .map(|i| {
+                    let mut b = FunctionBuilder::new(&mut m.types, &[], &[]);
+                    b.func_body().i32_const(i).drop();
+                    b.finish(vec![], &mut m.funcs)
+                })
+                .collect();
+            Box::new(Exports { m, fs, ids: vec![], vals: vec![], alive: vec![] })
         }
         _ => return None,
     })
